@@ -59,4 +59,7 @@ def check(run):
     run.floor("F-LAZY/no-overwrite", n, 25)
     lazy.check_private_attrs_initialised(run, P)
     njit.check_identity_comparisons(run, P)
+    # the cached tree wrapper is switched between element kinds through its `coordinates` setter: the k-bound must follow
+    from .c11 import _element_count_follows_kind
+    _element_count_follows_kind(run, P)
     run.stats.update(R.I.stats)
